@@ -1066,4 +1066,36 @@ COVER = {
     "bin/rdsquashfs/src/describe.c:describe_tree:is_filename_sane#0": (["sane_describe"], "S"),
     "bin/sqfs2tar/src/iterator.c:sane_next:is_filename_sane#0": (["sane_s2t"], "S"),
 }
+# call site (AST key) -> how the result is used there (checks/c18_ast.py `_shape`): `IfStmt(cond)` = the result itself is
+# the condition (refuse when non-zero), `UnaryOperator(!)` = negated (is_filename_sane: refuse when false), a comparison
+# with its operator and literal, `BinaryOperator(=)` = assigned (class B: `ret = ...; assert(ret == 0)` - what happens to
+# the variable afterwards is not part of the shape).  A different shape (`!= 0` turned into `> 0` or `< 0`, a dropped
+# negation, a result that is no longer tested) is reported as `funnel-shape:<key>` even where no probe input shows it.
+SHAPES = {
+    "lib/fstree/src/fstree.c:mknode:canonicalize_name#0": "IfStmt(cond)",
+    "lib/tar/src/iterator.c:it_next:canonicalize_name#0": "IfStmt(cond)>BinaryOperator(!= 0)",
+    "bin/gensquashfs/src/apply_xattr.c:get_full_path:canonicalize_name#0": "BinaryOperator(=)",
+    "bin/gensquashfs/src/filemap_xattr.c:parse_file_name:canonicalize_name#0": "IfStmt(cond)",
+    "bin/gensquashfs/src/fstree_from_file.c:handle_line:canonicalize_name#0": "IfStmt(cond)",
+    "bin/gensquashfs/src/glob.c:glob_files:canonicalize_name#0": "IfStmt(cond)>BinaryOperator(!= 0)",
+    "bin/gensquashfs/src/mkfs.c:pack_files:canonicalize_name#0": "BinaryOperator(=)",
+    "bin/gensquashfs/src/sort_by_file.c:decode_filename:canonicalize_name#0": "IfStmt(cond)",
+    "bin/gensquashfs/src/sort_by_file.c:fstree_sort_files:canonicalize_name#0": "IfStmt(cond)",
+    "bin/rdsquashfs/src/describe.c:print_name:canonicalize_name#0": "IfStmt(cond)>BinaryOperator(!= 0)",
+    "bin/rdsquashfs/src/describe.c:describe_tree:is_filename_sane#0": "IfStmt(cond)>UnaryOperator(!)",
+    "bin/rdsquashfs/src/fill_files.c:add_file:canonicalize_name#0": "IfStmt(cond)",
+    "bin/rdsquashfs/src/fill_files.c:gen_file_list_dfs:is_filename_sane#0": "IfStmt(cond)>UnaryOperator(!)",
+    "bin/rdsquashfs/src/options.c:get_path:canonicalize_name#0": "IfStmt(cond)",
+    "bin/rdsquashfs/src/restore_fstree.c:create_node_dfs:is_filename_sane#0": "IfStmt(cond)>UnaryOperator(!)",
+    "bin/rdsquashfs/src/restore_fstree.c:create_node_dfs:canonicalize_name#0": "BinaryOperator(=)",
+    "bin/rdsquashfs/src/restore_fstree.c:set_attribs:is_filename_sane#0": "IfStmt(cond)>UnaryOperator(!)",
+    "bin/rdsquashfs/src/restore_fstree.c:set_attribs:canonicalize_name#0": "BinaryOperator(=)",
+    "bin/sqfs2tar/src/iterator.c:sane_next:is_filename_sane#0": "IfStmt(cond)",
+    "bin/sqfs2tar/src/options.c:process_args:canonicalize_name#0": "IfStmt(cond)>BinaryOperator(||)>BinaryOperator(!= 0)",
+    "bin/sqfs2tar/src/options.c:process_args:canonicalize_name#1": "IfStmt(cond)",
+    "bin/sqfsdiff/src/util.c:node_path:canonicalize_name#0": "IfStmt(cond)",
+    "bin/tar2sqfs/src/options.c:process_args:canonicalize_name#0": "IfStmt(cond)>BinaryOperator(||)>BinaryOperator(!= 0)",
+    "bin/tar2sqfs/src/options.c:process_args:canonicalize_name#1": "IfStmt(cond)",
+    "bin/tar2sqfs/src/process_tarball.c:process_tarball:canonicalize_name#0": "IfStmt(cond)>BinaryOperator(&&)>BinaryOperator(&&)>BinaryOperator(== 0)",
+}
 DEFINING_FILES = ("lib/util/src/canonicalize_name.c", "lib/util/src/filename_sane.c")
